@@ -37,6 +37,16 @@ func footnoteDoc(refs, defs string, ln int, alpha string) (doc []byte, rl, dl []
 			doc = append(append(append(doc, "![a"...), r...), "](u)\n\n"...)
 		case 't':
 			doc = append(append(append(doc, "| h |\n|---|\n| c"...), r...), " |\n\n"...)
+		case 'T': // a surplus cell of a body row (dropped with the cell: the reference must not be counted)
+			doc = append(append(append(doc, "| h | g |\n|---|---|\n| c | d | more"...), r...), " |\n\n"...)
+		case 'x': // header cell
+			doc = append(append(append(doc, "| h"...), r...), " |\n|---|\n| c |\n\n"...)
+		case 'm': // first cell of a short row (the row is padded)
+			doc = append(append(append(doc, "| h | g |\n|---|---|\n| c"...), r...), " |\n\n"...)
+		case 'S': // strikethrough
+			doc = append(append(append(doc, "~~x"...), r...), "~~ y\n\n"...)
+		case 'c': // code span: not a reference
+			doc = append(append(append(doc, "`x"...), r...), "` y\n\n"...)
 		case 'h':
 			doc = append(append(append(doc, "# h"...), r...), "\n\n"...)
 		case 'q':
@@ -96,6 +106,25 @@ func atoiB(b []byte) int {
 
 // checkFootnotes asserts the cross-link clauses of C16 over tokenised output.
 func checkFootnotes(out []byte, toks []hTok) {
+	// ids and fragment links carry the configured prefix (WithFootnoteIDPrefix / IDPrefixFunction): strip it
+	pfx := vp.ParamStr("idprefix", "")
+	if pfx != "" {
+		for i := range toks {
+			t := &toks[i]
+			if t.Kind != tOpen {
+				continue
+			}
+			for a := range t.Attrs {
+				v := t.Attrs[a].Val
+				if string(t.Attrs[a].Name) == "id" && hasPrefixB(v, pfx) {
+					t.Attrs[a].Val = v[len(pfx):]
+				}
+				if string(t.Attrs[a].Name) == "href" && hasPrefixB(v, "#"+pfx) {
+					t.Attrs[a].Val = append([]byte("#"), v[1+len(pfx):]...)
+				}
+			}
+		}
+	}
 	ids := map[string]bool{}
 	var liNums []int
 	supIDs := map[string]int{} // sup id -> footnote number
@@ -148,7 +177,7 @@ func checkFootnotes(out []byte, toks []hTok) {
 				vp.Fail("footnote reference without a link")
 			}
 		case "a":
-			if cl, ok := t.attr("class"); ok && string(cl) == "footnote-backref" {
+			if cl, ok := t.attr("role"); ok && string(cl) == "doc-backlink" { // (the class is configurable, the role is not)
 				href, _ := t.attr("href")
 				vp.Assert(hasPrefixB(href, "#fnref"), "back-link with a foreign target")
 				if len(href) > 0 {
